@@ -214,9 +214,12 @@ def compute_combined_features(
         full_combination_space = full_combination_space + [tuple for tuple in model_combinations if tuple not in full_combination_space]
 
     def combine_features(new_combination):
-        combined_feature = input_dataframe[new_combination[0]].astype(str)
-        for feature in new_combination[1:]:
-            combined_feature += input_dataframe[feature].astype(str)
+        # Length-prefix each constituent so that distinct value tuples never concatenate to the same string
+        combined_feature = None
+        for feature in new_combination:
+            feature_values = input_dataframe[feature].astype(str)
+            prefixed_values = feature_values.str.len().astype(str) + ':' + feature_values
+            combined_feature = prefixed_values if combined_feature is None else combined_feature + prefixed_values
         combined_feature = combined_feature.apply(lambda x: xxhash.xxh64(x.encode('utf-8')).hexdigest())
         ftr_name = join_string.join(new_combination)
         return ftr_name, combined_feature
